@@ -8,7 +8,8 @@ INFO = {
     'rule': ('(stack of 1-4 distinct built-in middlewares in default configuration, in any order, at application or '
              'route level) x scenario route (small / large / incompressible / binary / empty / streamed Response, rendered '
              'context, redirect, raised and returned 4xx/5xx, non-breaking error, uncaught exception, unknown URL, wrong '
-             'method, POST with form data) x method (GET/HEAD/POST) x Accept-Encoding; every middleware alone x every '
+             'method, POST with form data) x method (GET/HEAD/POST) x Accept-Encoding x query string / form body (absent, '
+             'well-formed, unconvertible, empty, repeated, undecodable values for the typed GET/POST extractors); every middleware alone x every '
              'scenario x every Accept-Encoding is enumerated completely, stacks are drawn by Hypothesis. Non-trivial = the '
              'response is not a plain 200 Response, or the body was actually compressed, or >=2 middlewares are stacked; '
              'distinct cases counted.'),
@@ -19,10 +20,14 @@ INFO = {
 }
 
 MWS = ['gzip', 'cache', 'stats', 'profile', 'cookie', 'ctxproc', 'simplectx', 'getparam', 'postdata', 'scriptroot',
-       'ctxproc-names', 'simplectx-names']
+       'ctxproc-names', 'simplectx-names', 'getparam-typed', 'postdata-typed']
+# query strings / form bodies for the parameter extractors: absent, well-formed, unconvertible, empty, repeated, undecodable
+QUERIES = ['', 'zq_n=7&zq_f=2.5&zq_s=x', 'zq_n=abc', 'zq_n=&zq_f=1.5x', 'zq_n=x&zq_n=3', 'zq_unused=%ff&zq_s=%ff', 'zq_f=nan&zq_n=1.5']
+FORMS = [b'x=hello+world&y=2', b'x=1&zp_n=abc&zq_unused2=v', b'zp_n=&zp_f=--1', b'zp_n=12&zp_f=1e3&x=%ff']
 SCENARIOS = ['small', 'large', 'random', 'binary', 'empty', 'streamed', 'ctx', 'ctxfalsy', 'ctxlist', 'redirect', 'raise403', 'ret404', 'raise500',
              'ret503', 'nb403', 'boom', 'unknown', 'wrongmethod', 'form', 'status201', 'nocontent', 'preencoded', 'unicode']
 ENCODINGS = [None, 'gzip', 'gzip;q=0', '*', 'identity', 'deflate, gzip;q=0.5', 'gzip, deflate, br', 'GZIP', 'gzip;q=0.0, identity', 'x-gzip']
+PREENCODED = gzip.compress(b'already compressed ' * 200, mtime=0)   # fixed bytes: no wall-clock timestamp in the oracle
 RAND = bytes((i * 7919 + (i >> 3) * 104729 + (i * i) % 251) % 256 for i in range(3000))
 
 
@@ -39,6 +44,8 @@ def make_mw(name):
             'ctxproc-names': lambda: m.ContextProcessor(defaults={'a': 'DEFAULT-A', 'c': 'DEFAULT-C'}),
             'simplectx-names': lambda: m.SimpleContextProcessor('a', c='DEFAULT-C'),
             'getparam': lambda: m.GetParamMiddleware(['zq_unused']), 'postdata': lambda: PostDataMiddleware(['zq_unused2']),
+            'getparam-typed': lambda: m.GetParamMiddleware({'zq_n': int, 'zq_f': float, 'zq_s': str}),
+            'postdata-typed': lambda: PostDataMiddleware({'zp_n': int, 'zp_f': float}),
             'scriptroot': lambda: ScriptRootMiddleware()}[name]()
 
 
@@ -64,7 +71,7 @@ def build(stack, level):
         'redirect': lambda: redirect('/small'),
         'status201': lambda: Response('created ' * 100, status=201),
         'nocontent': lambda: Response('', status=204),
-        'preencoded': lambda: Response(gzip.compress(b'already compressed ' * 200), headers={'Content-Encoding': 'gzip'}),
+        'preencoded': lambda: Response(PREENCODED, headers={'Content-Encoding': 'gzip'}),
         'unicode': lambda: Response('é☃ ' * 400, mimetype='text/html'),
     }
 
@@ -114,12 +121,12 @@ def get_app(stack, level):
     return _apps[key]
 
 
-def request_for(scenario, method):
+def request_for(scenario, method, q=0):
     path = '/' + ('no/such/url' if scenario == 'unknown' else scenario)
     body, headers = b'', {}
-    if scenario == 'form':
+    if scenario == 'form' or (q and method == 'POST'):
         method = 'POST'
-        body = b'x=hello+world&y=2'
+        body = FORMS[q % len(FORMS)]
         headers['Content-Type'] = 'application/x-www-form-urlencoded'
     return path, method, body, headers
 
@@ -155,18 +162,21 @@ def first_line(b):
 
 
 def body(case, ctx):
-    stack, level, scenario, method, enc = case
-    rc = [list(stack), level, scenario, method, enc]
+    stack, level, scenario, method, enc = case[:5]
+    q = case[5] if len(case) > 5 else 0
+    rc = [list(stack), level, scenario, method, enc, q]
     ctx.current = rc
     base = get_app([], 'app')
     app = get_app(stack, level)
-    path, method, reqbody, headers = request_for(scenario, method)
+    path, method, reqbody, headers = request_for(scenario, method, q)
+    query = QUERIES[q % len(QUERIES)]
     if enc is not None:
         headers['Accept-Encoding'] = enc
-    r0 = call(base, path, method, headers=dict(headers), body=reqbody)
-    r1 = call(app, path, method, headers=dict(headers), body=reqbody)
+    r0 = call(base, path, method, query=query, headers=dict(headers), body=reqbody)
+    r1 = call(app, path, method, query=query, headers=dict(headers), body=reqbody)
     ctx.requests += 2
-    what = '%s %s Accept-Encoding=%r with %s at %s level' % (method, path, enc, '+'.join(stack), level)
+    what = '%s %s%s Accept-Encoding=%r%s with %s at %s level' % (method, path, '?' + query if query else '', enc,
+                                                                ' form %r' % reqbody if reqbody else '', '+'.join(stack), level)
     if r0.exc is not None:
         raise AssertionError('baseline raised %r' % r0.exc)
     if r1.exc is not None:
@@ -214,7 +224,7 @@ def body(case, ctx):
         if sent:
             ctx.mismatch('head-body', '%s: HEAD response carries %d body bytes' % (what, len(sent)), rc)
             return
-        g = call(app, path, 'GET', headers=dict(headers))
+        g = call(app, path, 'GET', query=query, headers=dict(headers))
         ctx.requests += 1
         if g.header('Content-Length') is not None and r1.header('Content-Length') is not None and \
                 g.header('Content-Length') != r1.header('Content-Length') and scenario != 'boom':
@@ -224,7 +234,7 @@ def body(case, ctx):
         # the gzip-accepting variant of the same URL: if that one is compressed, this one must carry Vary too
         h2 = dict(headers)
         h2['Accept-Encoding'] = 'gzip'
-        g = call(app, path, method, headers=h2, body=reqbody)
+        g = call(app, path, method, query=query, headers=h2, body=reqbody)
         ctx.requests += 1
         if (g.header('Content-Encoding') or '').lower() == 'gzip' and ce0 != 'gzip':
             vary = ','.join(r1.headers_all('Vary')).lower()
@@ -234,6 +244,8 @@ def body(case, ctx):
     ctx.event('scenario-' + scenario)
     if compressed:
         ctx.event('compressed')
+    if q:
+        ctx.event('with-parameters')
     if compressed or len(stack) >= 2 or scenario not in ('small', 'large', 'random', 'binary', 'empty', 'unicode'):
         ctx.nt(rc, sample=len(ctx.samples) < 3)
 
@@ -245,7 +257,8 @@ def culprit(stack):
 def strategy():
     from hypothesis import strategies as st
     return st.tuples(st.lists(st.sampled_from(MWS), min_size=1, max_size=4, unique=True), st.sampled_from(['app', 'app', 'route']),
-                     st.sampled_from(SCENARIOS), st.sampled_from(['GET', 'GET', 'HEAD', 'POST']), st.sampled_from(ENCODINGS))
+                     st.sampled_from(SCENARIOS), st.sampled_from(['GET', 'GET', 'HEAD', 'POST']), st.sampled_from(ENCODINGS),
+                     st.one_of(st.just(0), st.integers(0, 27)))
 
 
 def shards(tier, seed):
@@ -258,8 +271,11 @@ def shards(tier, seed):
 def run_shard(spec, ctx):
     if spec['part'] == 'alone':
         ctx.exhaustive = True
-        cases = [[[mw], level, sc, method, enc] for mw in spec['mws'] for level in ('app', 'route') for sc in SCENARIOS
+        cases = [[[mw], level, sc, method, enc, 0] for mw in spec['mws'] for level in ('app', 'route') for sc in SCENARIOS
                  for method in ('GET', 'HEAD') for enc in ENCODINGS]
+        # the parameter extractors: every query string / form body as well
+        cases += [[[mw], level, sc, method, None, q] for mw in spec['mws'] if 'param' in mw or 'postdata' in mw
+                  for level in ('app', 'route') for sc in SCENARIOS for method in ('GET', 'HEAD', 'POST') for q in range(1, 28)]
         ctx.loop(cases, body, kind='case', max_sigs=12)
     else:
         ctx.hyp(strategy(), body, spec['n'], kind='case')
